@@ -12,6 +12,8 @@ Streams
   pin      histories of PIN attempts {right, wrong, stale cookie} against the real pin_auth (time.sleep
            stubbed) vs Model.Debugger.runHistory. Oracle: an unbounded failure count; more than ten
            failures since the last success => the right PIN is refused.
+  pin-overlap  k wrong attempts from threads, each parked inside its penalty delay (time.sleep = gate), then the
+           right PIN: it must be refused and at most eleven wrong PINs may have been compared (oracle only).
   gates    points of the property's product plus off-grid variations (other secrets, __debugger__ spellings,
            grammar hosts, pre-existing failures) driven through the real DebuggedApplication.__call__ with a
            spy frame vs Model.Debugger.dispatch. Oracle: the gate conjunctions of the property.
@@ -524,6 +526,110 @@ class SessionStream(Stream):
 
 # --------------------------------------------------------------------------
 
+
+def run_overlap(k: int, stale: int = 0):
+    """`k` wrong-PIN requests (the first `stale` of them with a stale cookie instead) are issued from
+    threads, one after the other, each left parked inside its penalty delay (time.sleep is replaced by
+    a gate); then the right PIN is sent from the main thread; then the gate opens.
+    Returns (answer to the right PIN, answers of the wrong attempts, counter when the right PIN was sent)."""
+    import queue
+    import threading
+    import time
+    from unittest import mock
+
+    from werkzeug import debug as debug_mod
+
+    g = gen_mod()
+    rig = g.Rig(False, True)
+    gate = threading.Event()
+    events = queue.Queue()
+
+    def parked_sleep(seconds):
+        events.put("parked")
+        gate.wait(10)
+
+    answers = [None] * k
+
+    def attempt(i):
+        try:
+            if i < stale:
+                path, q = rig.build_query("pinauth-wrong", "right", "known")
+                res = rig.request(path, q, "localhost", "wronghash", patch=False)
+            else:
+                path, q = rig.build_query("pinauth-wrong", "right", "known")
+                res = rig.request(path, q, "localhost", "absent", patch=False)
+            code = g.classify(res)
+            if g.OUT_PINAUTH <= code <= g.OUT_PINAUTH + 3:
+                auth, exhausted = divmod(code - g.OUT_PINAUTH, 2)
+                answers[i] = "a" if auth else ("x" if exhausted else "f")
+            else:
+                answers[i] = "?"
+        except Exception as e:  # noqa: BLE001
+            answers[i] = "EXC:" + type(e).__name__
+        finally:
+            events.put("done")
+
+    threads = []
+    with mock.patch.object(time, "sleep", parked_sleep), mock.patch.object(debug_mod, "_log", lambda *a, **k: None):
+        try:
+            for i in range(k):
+                t = threading.Thread(target=attempt, args=(i,), daemon=True)
+                threads.append(t)
+                t.start()
+                events.get(timeout=10)  # this attempt is now parked in its delay, or already answered
+            counter = int(rig.app._failed_pin_auth.value)
+            path, q = rig.build_query("pinauth-right", "right", "known")
+            res = rig.request(path, q, "localhost", "absent", patch=False)
+            code = g.classify(res)
+            if g.OUT_PINAUTH <= code <= g.OUT_PINAUTH + 3:
+                auth, exhausted = divmod(code - g.OUT_PINAUTH, 2)
+                right = "a" if auth else ("x" if exhausted else "f")
+            else:
+                right = "?"
+        finally:
+            gate.set()
+            for t in threads:
+                t.join(10)
+    return right, "".join(a if a is not None and len(a) == 1 else "?" for a in answers), counter
+
+
+class OverlapStream(Stream):
+    """overlapping wrong guesses on real threads (outside the sequential model; oracle only)"""
+
+    name = "pin-overlap"
+    corpus = [{"k": 11, "stale": 0}, {"k": 12, "stale": 0}, {"k": 30, "stale": 0}, {"k": 12, "stale": 12}, {"k": 14, "stale": 5}]
+
+    def cases(self, rng, tier):
+        if tier == "thorough":
+            for k in (11, 13, 20, 40):
+                for stale in (0, 3, k):
+                    yield {"k": k, "stale": stale}
+
+    def real(self, case):
+        right, wrongs, counter = run_overlap(case["k"], case["stale"])
+        return f"{right}|{wrongs}|{counter}"
+
+    def oracle(self, case, real_out):
+        if real_out.startswith("EXC"):
+            return f"the debugger raised {real_out[4:]}"
+        right, wrongs, counter = real_out.split("|")
+        if "?" in wrongs or "a" in wrongs:
+            return f"a wrong attempt was answered {wrongs!r}"
+        if right != "x":
+            return f"the right PIN was answered {right!r} after {case['k']} rejected attempts whose penalty delays were still running (more than ten failures: it must be refused)"
+        # a cookie-less wrong attempt answered 'f' was compared against the PIN
+        compared = wrongs[case["stale"] :].count("f")
+        allowed = max(0, 11 - case["stale"])  # the stale-cookie failures, issued first, already count
+        if compared > allowed:
+            return f"{compared} wrong PINs were compared against the PIN after {case['stale']} stale-cookie failures: the gate admits at most eleven failures"
+        return None
+
+    def bucket(self, case, real_out):
+        return f"k={case['k']}/stale={case['stale']}"
+
+
+# --------------------------------------------------------------------------
+
 SECRET_VARIANTS = ["right", "wrong", "absent", "prefix", "longer", "upper", "empty"]
 DEBUGGER_VARIANTS = ["yes", "yes", "yes", "YES", "no", "1", ""]
 
@@ -697,14 +803,14 @@ CHECK = Check(
     prop="C20",
     gen=["Debugger", "PyFns_Host"],
     modules=["WzVerif.Props.C20", "WzVerif.Props.C20T"],
-    streams=[HostStream(), PinStream(), SessionStream(), GateStream(), PreludeKernels()],
+    streams=[HostStream(), PinStream(), SessionStream(), OverlapStream(), GateStream(), PreludeKernels()],
     assumptions=[
         "the idna codec is an opaque parameter of the model (String -> Except); the harness supplies CPython's answers for the strings of each case, the theorems hold for every such function",
         "hash_pin (sha1), gen_salt and time.time() are abstracted: the PIN cookie is one of {valid, expired, wrong hash, malformed, absent}, the secret one of {right, wrong, absent}",
         "the generated gate table is the complete product command x secret x Host (21 listed values with the class the property text gives them) x cookie x frame x evalex x pin, one fresh DebuggedApplication per point, time.sleep and _log stubbed, the frame is a spy object registered in app.frames",
         "get_resource (static files of the debugger) is served without Host or secret check; the property does not list it among the gated endpoints",
         "PINs are abstracted to generations in the session model (a run-time change of app.pin increments the generation; a cookie carries the generation it was issued for); cookie expiry is not part of sessions",
-        "multi-process sharing of the failure counter (multiprocessing.Value) and real sleeping are outside the model",
+        "multi-process sharing of the failure counter (multiprocessing.Value) and real sleeping are outside the model; the sequential model is complemented by (a) the structural obligation fail_counted_before_delay read off the AST of _fail_pin_auth / pin_auth and (b) stream pin-overlap, which exercises real threads: wrong attempts issued one after the other are each parked inside their penalty delay (time.sleep replaced by a threading.Event gate) while the right PIN is tried - oracle only, outside the model",
         "_strip_port and host_is_trusted are regenerated from the source by tools/py2lean.py (Gen/PyFns_Host.lean) on every run and proved equal to the hand model for all inputs (Props/C20T; idna stays opaque); the CPython primitives the translated code calls (startswith, find, slicing, partition, endswith) are modelled in Util/PyPrelude.lean and validated by stream prelude-kernels",
     ],
     trusted_extra=["CPython's idna codec (encodings.idna) - opaque in the model, also used by the host oracle"],
